@@ -196,7 +196,7 @@ class LDAPResultCode(enum.IntEnum):
         if not isinstance(value, int):
             return None
 
-        new_member = int.__new__(cls)
+        new_member = int.__new__(cls, value)
         new_member._name_ = "UNKNOWN 0x{0:08X}".format(value)
         new_member._value_ = value
 
